@@ -2,6 +2,9 @@ module verifharness
 
 go 1.26
 
-require github.com/tmaxmax/go-sse v0.0.0
+require (
+	github.com/anishathalye/porcupine v1.3.0
+	github.com/tmaxmax/go-sse v0.0.0
+)
 
 replace github.com/tmaxmax/go-sse => /repo
